@@ -24,6 +24,11 @@ def main(argv):
     sb = uni.Sandbox('replay')
     try:
         spec = v['history']
+        if 'steps' not in spec:
+            print('recorded: property=%s clause=%s facts=%s history=%s detail=%s' % (
+                v.get('property'), v.get('clause'), json.dumps(v.get('facts')), json.dumps(spec), json.dumps(v.get('detail'), default=str)[:400]))
+            print('(a raw-API case of the check itself; re-run ./check %s to reproduce)' % v.get('property'))
+            return 1
         world = World(sb, fb, spec.get('cfg', 'K0'))
         results = run_spec(world, spec)
         nviol = 0
